@@ -443,3 +443,9 @@ def run(ctx, eng):
                'an acknowledged local INITIAL_WINDOW_SIZE is enforced on '
                'every existing stream from that moment (window and maximum '
                'move by exactly the delta)')
+    cm.include(ctx, eng, 'C03', lambda o: o.rule == 'FLOW.delta',
+               'a received INITIAL_WINDOW_SIZE is applied at once to every '
+               'stream that exists, reserved ones included')
+    cm.include(ctx, eng, 'C10', {'FLOW.limit-default'},
+               'a MAX_CONCURRENT_STREAMS of 0 that was acknowledged is '
+               'enforced as 0, not read back as "no limit"')
